@@ -185,10 +185,18 @@ def merge_add(fi, fld):
     self_n, other_n = fi.params[0], fi.params[1]
     res_name = None
     result = {}
-    classes = ("both", "self-only", "other-only")
+    # key classes; "both-cancel": present in both operands with coefficients that sum to exactly 0
+    classes = ("both", "both-cancel", "self-only", "other-only")
+    locs = {}
 
     def member(k, which):   # is abstract key of class k in operand `which`?
-        return k == "both" or (k == "self-only" and which == "self") or (k == "other-only" and which == "other")
+        return k in ("both", "both-cancel") or (k == "self-only" and which == "self") or (k == "other-only" and which == "other")
+
+    def is_zero(p, k):
+        """is the coefficient polynomial zero for keys of class k?  (symbols are generic non-zero coefficients)"""
+        if k == "both-cancel":
+            p = p.subst({"O": -S})
+        return p.is_zero()
 
     def operand_of(expr):
         t = norm(expr)
@@ -205,6 +213,8 @@ def merge_add(fi, fld):
             env["%s.%s.get(%s, 0)" % (nm, fld, keyvar)] = sym if present else P.const(0)
         if valvar:
             env[valvar[0]] = S if valvar[1] == "self" else O
+        for ln, lv in locs.items():
+            env[ln] = lv
         if res_name:
             cur = result.get(k)
             env["%s[%s]" % (res_name, keyvar)] = cur
@@ -233,10 +243,39 @@ def merge_add(fi, fld):
                 return r
             if isinstance(expr.ops[0], ast.NotIn):
                 return not r
+        # zero tests on coefficient expressions:  c != 0 / c == 0 / c
+        if isinstance(expr, ast.Compare) and len(expr.ops) == 1 and isinstance(expr.ops[0], (ast.Eq, ast.NotEq)):
+            sides = [expr.left, expr.comparators[0]]
+            zero = [x for x in sides if isinstance(x, ast.Constant) and x.value == 0]
+            rest = [x for x in sides if not (isinstance(x, ast.Constant) and x.value == 0)]
+            if len(zero) == 1 and len(rest) == 1:
+                z = is_zero(value(rest[0], k, keyvar, cur_valvar[0]), k)
+                return z if isinstance(expr.ops[0], ast.Eq) else not z
+        if isinstance(expr, (ast.Name, ast.Subscript, ast.BinOp, ast.Call)):
+            return not is_zero(value(expr, k, keyvar, cur_valvar[0]), k)
         raise Undecided("test `%s` not interpretable" % norm(expr))
 
+    cur_valvar = [None]
+
     def run(stmts, k, keyvar, valvar):
+        cur_valvar[0] = valvar
         for s in stmts:
+            if isinstance(s, ast.Assign) and len(s.targets) == 1 and isinstance(s.targets[0], ast.Name) \
+                    and s.targets[0].id not in (res_name, keyvar):
+                locs[s.targets[0].id] = value(s.value, k, keyvar, valvar)      # loop-local coefficient
+                continue
+            if isinstance(s, ast.Delete) and len(s.targets) == 1 and isinstance(s.targets[0], ast.Subscript) \
+                    and norm(s.targets[0].value) == res_name and norm(s.targets[0].slice) == keyvar:
+                if k not in result:
+                    raise Undecided("deletes a missing key (KeyError)")
+                del result[k]
+                continue
+            if isinstance(s, ast.Expr) and isinstance(s.value, ast.Call) and norm(s.value.func) == "%s.pop" % res_name \
+                    and s.value.args and norm(s.value.args[0]) == keyvar:
+                if k not in result and len(s.value.args) < 2:
+                    raise Undecided("pops a missing key (KeyError)")
+                result.pop(k, None)
+                continue
             if isinstance(s, ast.If):
                 run(s.body if test(s.test, k, keyvar) else s.orelse, k, keyvar, valvar)
             elif isinstance(s, ast.Assign) and isinstance(s.targets[0], ast.Subscript) \
@@ -262,9 +301,9 @@ def merge_add(fi, fld):
             if t in ("dict()", "{}"):
                 pass
             elif t in ("dict(%s.%s)" % (self_n, fld), "%s.%s.copy()" % (self_n, fld)):
-                result["both"], result["self-only"] = S, S
+                result["both"], result["both-cancel"], result["self-only"] = S, S, S
             elif t in ("dict(%s.%s)" % (other_n, fld), "%s.%s.copy()" % (other_n, fld)):
-                result["both"], result["other-only"] = O, O
+                result["both"], result["both-cancel"], result["other-only"] = O, O, O
             else:
                 raise Undecided("initialisation `%s`" % t)
         elif isinstance(s, ast.For):
@@ -279,6 +318,7 @@ def merge_add(fi, fld):
                 keyvar, valvar = norm(s.target), None
             for k in classes:
                 if member(k, which):
+                    locs.clear()
                     run(s.body, k, keyvar, valvar)
         elif isinstance(s, ast.Return):
             ret = s
@@ -286,11 +326,16 @@ def merge_add(fi, fld):
             raise Undecided("statement `%s`" % norm(s)[:60])
     if ret is None or not (isinstance(ret.value, ast.Call) and ret.value.args and norm(ret.value.args[0]) == res_name):
         raise Undecided("result is not constructed from the merged container")
-    return result, {"both": S + O, "self-only": S, "other-only": O}
+    # a cancelled key may be dropped or kept with coefficient 0: normalise to "its coefficient is zero"
+    g = result.get("both-cancel")
+    result["both-cancel"] = P() if (g is None or is_zero(g, "both-cancel")) else g
+    return result, {"both": S + O, "both-cancel": P(), "self-only": S, "other-only": O}
 
 
-def algebra(repo, rule):
+def algebra(repo, rule, only=None):
     for mod, cn, fld, shape in LC_CLASSES:
+        if only is not None and mod not in only:
+            continue
         ci = repo.cls(mod, cn)
         modulus_names = {"vc_p"} if shape == "list" else set()
         add = ci.methods.get("__add__")
@@ -304,7 +349,7 @@ def algebra(repo, rule):
         if shape == "dict":
             try:
                 got, want = merge_add(add, fld)
-                for k in ("both", "self-only", "other-only"):
+                for k in ("both", "both-cancel", "self-only", "other-only"):
                     g = got.get(k)
                     term = "key in %s: result coefficient %s (expected %s)" % (k, g, want[k])
                     if g is not None and g == want[k]:
@@ -312,7 +357,8 @@ def algebra(repo, rule):
                     else:
                         rule.violation(add.loc(), add.fq, term,
                                        "merged coefficient for a key present in %s is %s" % (
-                                           k.replace("-only", " only").replace("both", "both operands"),
+                                           {"both": "both operands", "both-cancel": "both operands with coefficients that cancel to 0",
+                                            "self-only": "self only", "other-only": "other only"}[k],
                                            "missing" if g is None else "wrong"), "%s/%s" % (add.fq, k))
             except Undecided as e:
                 rule.undecided(add.loc(), add.fq, norm(add.node.body)[:160], "merge shape not interpretable: %s" % e)
